@@ -35,6 +35,14 @@ pub mod own {
         }
     }
 
+    // the stored handle itself, NOT a clone: the library then sees operands whose strong count can be 1
+    fn node_ref<'a>(slots: &'a StdMap<usize, Obj>, s: &String) -> &'a ON {
+        match slots.get(&pusize(s)) {
+            Some(Obj::Node(n)) => n,
+            _ => panic!("verif: slot {} does not hold a node", s),
+        }
+    }
+
     fn fmt_e(e: &OE) -> String {
         format!("({}>{}:{})", e.source().key(), e.target().key(), e.value())
     }
@@ -58,7 +66,12 @@ pub mod own {
                         "ok".to_string()
                     }
                     "ocon" => {
-                        node_of(slots, &st[1]).connect(&node_of(slots, &st[2]), Et::of(pu64(&st[3])));
+                        if pu64(&st[3]) % 2 == 0 {
+                            // through the program's own handles, by reference (sole handles stay sole)
+                            node_ref(slots, &st[1]).connect(node_ref(slots, &st[2]), Et::of(pu64(&st[3])));
+                        } else {
+                            node_of(slots, &st[1]).connect(&node_of(slots, &st[2]), Et::of(pu64(&st[3])));
+                        }
                         "ok".to_string()
                     }
                     "oqry" => {
@@ -68,10 +81,17 @@ pub mod own {
                         let c2 = b.is_connected(a.key());
                         format!("q {} {}", c1 as u8, c2 as u8)
                     }
-                    "otry" => match node_of(slots, &st[1]).try_connect(&node_of(slots, &st[2]), Et::of(pu64(&st[3]))) {
-                        Ok(()) => "ok".to_string(),
-                        Err(_) => "err exists".to_string(),
-                    },
+                    "otry" => {
+                        let r = if pu64(&st[3]) % 2 == 0 {
+                            node_ref(slots, &st[1]).try_connect(node_ref(slots, &st[2]), Et::of(pu64(&st[3])))
+                        } else {
+                            node_of(slots, &st[1]).try_connect(&node_of(slots, &st[2]), Et::of(pu64(&st[3])))
+                        };
+                        match r {
+                            Ok(()) => "ok".to_string(),
+                            Err(_) => "err exists".to_string(),
+                        }
+                    }
                     "odis" => match node_of(slots, &st[1]).disconnect(&Kt::of(pu64(&st[2]))) {
                         Ok(e) => format!("ok {}", e),
                         Err(_) => "err notfound".to_string(),
@@ -140,6 +160,10 @@ pub mod own {
                             }
                             None => "none".to_string(),
                         }
+                    }
+                    "oexer" => {
+                        let _ = own_exercise!(node_of(slots, &st[1]));
+                        "ok".to_string()
                     }
                     "onodes" => {
                         let a = node_of(slots, &st[2]);
